@@ -1,13 +1,65 @@
-/- Line-protocol driver for M-Idl (stub until the model lands). Core-only. -/
+/-
+Line-protocol driver for M-Idl. One operation per input line, one answer per output line.
+Core-only (built as `lean_exe idldrv`).
+
+  parse <hex>   → ok <program dump> | err <n> <line:col>… | fuel
+  walk  <hex>   → ok <n> <kind@l:c^parent>… | err | fuel        (ast.Walk over the parsed program)
+  lex   <hex>   → ok <tok@l:c>…                                   (Lex() results)
+  unq1  <hex>   → ok <hex> | err        UnquoteSingleQuoted       unq2: UnquoteDoubleQuoted
+  q1 / q2 / q1s / q2s <hex> → ok <hex>   the model's printers (quoteSingle/Double, …Safe)
+  doc   <hex>   → ok <hex>              ParseDocstring
+  int   <hex>   → ok <n> | err          INTCONSTANT action        dbl: DUBCONSTANT action (bits)
+-/
+import ThriftVerif.Idl.Dump
+
+open ThriftVerif.Idl
+
+def optBytes : Option Bytes → String
+  | some b => "ok " ++ hexOf b
+  | none => "err"
+
+def step (line : String) : String :=
+  match (line.trimAscii.toString.splitOn " ").filter (· ≠ "") with
+  | [op, hex] =>
+    match unhex hex with
+    | none => "bad-op"
+    | some bs =>
+      match op with
+      | "parse" => parseResultText (parse bs)
+      | "walk" =>
+        match parse bs with
+        | .program p =>
+          let vs := walk (.program p)
+          s!"ok {vs.length} " ++ sp (vs.map visitText)
+        | .errors _ => "err"
+        | .outOfFuel => "fuel"
+      | "lex" => "ok " ++ sp ((lexAll bs).map ltokText)
+      | "unq1" => optBytes (unquoteSingle bs)
+      | "unq2" => optBytes (unquoteDouble bs)
+      | "q1" => "ok " ++ hexOf (quoteSingle bs)
+      | "q2" => "ok " ++ hexOf (quoteDouble bs)
+      | "q1s" => "ok " ++ hexOf (quoteSingleSafe bs)
+      | "q2s" => "ok " ++ hexOf (quoteDoubleSafe bs)
+      | "doc" => "ok " ++ hexOf (parseDocstring bs)
+      | "int" =>
+        match lexInt bs with
+        | some v => s!"ok {v}"
+        | none => "err"
+      | "dbl" =>
+        match lexDouble bs with
+        | some v => s!"ok {v}"
+        | none => "err"
+      | _ => "bad-op"
+  | _ => "bad-op"
+
+partial def loop (hin hout : IO.FS.Stream) : IO Unit := do
+  let line ← hin.getLine
+  if line.isEmpty then return ()
+  hout.putStrLn (step line)
+  loop hin hout
+
 def main : IO Unit := do
   let hin ← IO.getStdin
   let hout ← IO.getStdout
-  let rec loop : Nat → IO Unit
-    | 0 => pure ()
-    | n + 1 => do
-      let line ← hin.getLine
-      if line.isEmpty then return ()
-      hout.putStrLn "bad-op"
-      loop n
-  loop 1000000000
+  loop hin hout
   hout.flush
